@@ -4,6 +4,8 @@
 #   2. demo test FAILS with the patch and PASSES without it
 set -e
 SEED="$1"; NAME=$(basename "$SEED")
+# the demonstration test: meta.json test_name (last path segment), or the older convention `seeded_demo`
+T=$(python3 -c "import json,sys; print((json.load(open(sys.argv[1])).get('test_name') or 'seeded_demo').split('::')[-1])" "$SEED/meta.json")
 WT=/var/tmp/seed-confirm/$NAME
 export CARGO_TARGET_DIR=/var/tmp/seed-confirm-target CARGO_NET_OFFLINE=true
 rm -rf "$WT"; git -C /repo worktree prune; git -C /repo worktree add --detach "$WT" HEAD >/dev/null 2>&1
@@ -12,7 +14,7 @@ git apply "$SEED/patch.diff"
 cargo test --offline --lib 2>&1 | grep -aE "^test result|\.\.\. FAILED" | sort -u > "$WT/../$NAME.patched.txt" || true
 echo "--- with patch, full lib suite:"; cat "$WT/../$NAME.patched.txt"
 git apply "$SEED/demo.diff"
-echo "--- with patch + demo:"; cargo test --offline --lib seeded_demo 2>&1 | grep -aE "^test result|seeded_demo.*(ok|FAILED)$" || true
+echo "--- with patch + demo:"; cargo test --offline --lib "$T" 2>&1 | grep -aE "^test result|$T.*(ok|FAILED)$" || true
 git checkout -- . ; git apply "$SEED/demo.diff"
-echo "--- demo only (clean):"; cargo test --offline --lib seeded_demo 2>&1 | grep -aE "^test result|seeded_demo.*(ok|FAILED)$" || true
+echo "--- demo only (clean):"; cargo test --offline --lib "$T" 2>&1 | grep -aE "^test result|$T.*(ok|FAILED)$" || true
 cd /; git -C /repo worktree remove --force "$WT"
